@@ -49,3 +49,20 @@ Print Assumptions assign_unrelated_free.
 Theorem leapfrog_grad_count : forall n s c, (0 < n)%nat -> snd (lf_steps n s c) = (if has_g s then n else S n).
 Proof. exact GradCount.leapfrog_grad_count. Qed.
 Print Assumptions leapfrog_grad_count.
+
+(* both time directions grown from one initial state (dynamic transitions): from a state whose gradient is cached the count is
+   exactly one per new position, for every nf, nb *)
+Theorem bidirectional_warm_count : forall nf nb s c, has_g s = true -> grow_both nf nb s c = (nf + nb)%nat.
+Proof. intros nf nb s c H. rewrite GradCount.grow_both_count, H. reflexivity. Qed.
+Print Assumptions bidirectional_warm_count.
+(* from a COLD state each direction that is grown pays the gradient at the start position again, because Integrator.step caches
+   it in its own copy of the edge state only: nf + nb + [nf > 0] + [nb > 0] evaluations *)
+Theorem bidirectional_cold_count : forall nf nb s c, has_g s = false ->
+  grow_both nf nb s c = (nf + nb + Nat.min 1 nf + Nat.min 1 nb)%nat.
+Proof. intros nf nb s c H. rewrite GradCount.grow_both_count, H. reflexivity. Qed.
+Print Assumptions bidirectional_cold_count.
+(* hence "at most once per distinct position" (nf + nb + 1 positions) is FALSE of the faithful model whenever a cold start grows
+   both directions: the formal statement of known finding G15; the witness is replayed on the implementation by tie/c18.py *)
+Theorem once_per_position_refuted : exists nf nb s c, has_g s = false /\ (grow_both nf nb s c > nf + nb + 1)%nat.
+Proof. exists 1%nat, 1%nat, {| pv := 0; mv := 0; cg := None; cvv := None |}, 0%nat. split; [reflexivity|vm_compute; lia]. Qed.
+Print Assumptions once_per_position_refuted.
